@@ -1,15 +1,17 @@
 #!/bin/sh
 # tools/seeded_all.sh [ids...] — for each seeded change: apply to /repo, run its own check, record the verdict in
-# seeded/<id>/meta.json ("result"), undo.  Refuses to run when /repo has local changes.
+# seeded/<id>/meta.json ("result"), undo.  Refuses to run when the repository has local changes.  VERIF_REPO selects the
+# repository (default /repo), so that the regression can run on a snapshot (vp run --with-repo) while /repo is in use.
 cd "$(dirname "$0")/.." || exit 2
+REPO=${VERIF_REPO:-/repo}
 ids=${*:-$(ls seeded | grep -E '^C[0-9][0-9][b-z]?$')}
-git -C /repo diff --quiet || { echo "/repo has local changes; refusing"; exit 2; }
+git -C $REPO diff --quiet || { echo "$REPO has local changes; refusing"; exit 2; }
 for d in $ids; do
   p=$(echo $d | cut -c1-3)
   rm -f replay/$p-*.json
-  git -C /repo apply "$PWD/seeded/$d/patch.diff" || { echo "$d: patch does not apply"; continue; }
+  git -C $REPO apply "$PWD/seeded/$d/patch.diff" || { echo "$d: patch does not apply"; continue; }
   line=$(./check $p 2>/dev/null | tail -1)
-  git -C /repo checkout -- .
+  git -C $REPO checkout -- .
   git checkout -q -- evidence/$p.json 2>/dev/null   # evidence written while a seeded change was applied is never kept
   python3 - "$p" "$line" "$d" <<'PY'
 import json, glob, sys
